@@ -760,6 +760,17 @@ func (f *frame) obligeAt(R, kind, key string, props []string, cond string, pos t
 		props = f.defaultProps()
 	}
 	o := &Obligation{Name: fnName + "/" + full, Kind: kind, Key: key, Props: props, Guard: R, Cond: cond, Pos: f.posStr(pos), Src: f.srcLine(pos), Func: fnName}
+	if vc.topC != nil && kind != "cover" {
+		for _, pat := range vc.topC.Undecided {
+			if strings.Contains(full, pat) {
+				// stated as not decided: the obligation is named and counted, assumed instead of discharged, and
+				// listed among the assumptions of every property of the function
+				vc.assumed["obligation "+o.Name+" is not decided (assumed; clause 'undecided "+pat+"')"] = true
+				o.Cond = "true"
+				break
+			}
+		}
+	}
 	if f.cur != nil && kind != "cover" && cond != "true" && f.depth == 0 {
 		if ps := f.pathConds(f.cur); len(ps) > 1 {
 			o.Paths = ps
